@@ -70,6 +70,10 @@ class EvalMixin:
         if st.spec:
             if name in st.res:
                 return st.res[name]
+            if self.cur is not None and name in self.cur.extra.get("aliases", {}):
+                av = self.alias_values(st)
+                if name in av:
+                    return av[name]
             if name == "me":
                 return SV("int", self.me)
             if name == "LASTKW":
